@@ -146,23 +146,57 @@ def mr_auto_var(c: str) -> bool:
     return R(line is not None and rsh.argv(line) == ['cc', '-o', _want(p)])
 
 
+class _FEnv:
+    base_dirs = {Root.srcdir: Path('/srcdir', Root.absolute), Root.builddir: None}
+
+
+def _write_depfile(dirs, makeify):
+    buf = StringIO()
+
+    class _F:
+        def __enter__(self):
+            return buf
+
+        def __exit__(self, *a):
+            return False
+    had = hasattr(bfind, 'open')
+    old = getattr(bfind, 'open', None)
+    bfind.open = lambda *a, **k: _F()
+    try:
+        bfind.write_depfile(_FEnv, Path('.bfg_find_deps'), Path('Makefile'), dirs, makeify=makeify)
+    finally:
+        if had:
+            bfind.open = old
+        else:
+            del bfind.open
+    return buf.getvalue()
+
+
 def mf_find_deps(c: str) -> bool:
-    """.bfg_find_deps line written by builtins/find.py write_depfile (makeify form): directory
-    names as prerequisites and as targets
+    """.bfg_find_deps as written by the real builtins/find.py write_depfile (makeify form): the
+    walked directory as a prerequisite of the build file and as a target of its own
     pre: len(c) == N and _comp_ok(c) and _in_scope(c, EXCL) and not _kf_make(c)
     pre: not (KF_TILDE and c[0] == '~' and SHAPE != 0)
     post: _
     """
     p = _mkpath(c)
-    s = _want(p)
-    out = msyntax.Writer(StringIO(), None)
-    out.write(s, MS.dependency)
-    a = rmake.rule_words('aa ' + out.stream.getvalue(), 'prereq')
-    out = msyntax.Writer(StringIO(), None)
-    out.write(s, MS.target)
-    b = rmake.rule_words(out.stream.getvalue(), 'target') if not (s.endswith(' ') or
-                                                                  s.endswith('&')) else [s]
-    return R(a == ['aa', s] and b == [s])
+    p.directory = True
+    s = p.suffix if p.root == Root.builddir else '/srcdir/' + p.suffix
+    text = _write_depfile([Path('plain', Root.srcdir, directory=True), p], True)
+    lines = text.split('\n')
+    if len(lines) != 4 or lines[3] != '':
+        return R(False)
+    head = 'Makefile:'
+    if not lines[0].startswith(head) or not lines[1] == '/srcdir/plain:':
+        return R(False)
+    a = rmake.rule_words(lines[0][len(head):], 'prereq')
+    if not lines[2].endswith(':'):
+        return R(False)
+    if s.endswith(' ') or s.endswith('&'):
+        b = [s]
+    else:
+        b = rmake.rule_words(lines[2][:-1], 'target')
+    return R(a == ['/srcdir/plain', s] and b == [s])
 
 
 NEXCL = param('nexcl', '|')
@@ -253,3 +287,43 @@ def mi_include(c: str) -> bool:
     w = _want(p)
     names = rmake.include_words(text[len(head):-1], SRC, [w])
     return R(names == [w])
+
+
+# ---- the directory sentinel rule:  %/.dir: ; mkdir -p '$(patsubst %/.dir,%,$@)' ; touch '$@' ------
+class _MkdirTool:
+    def __call__(self, path):
+        return ['mkdir', '-p', path]
+
+
+class _DEnv:
+    def tool(self, name):
+        return _MkdirTool()
+
+
+def mx_dir_rule(c: str) -> bool:
+    """the pattern rule that creates output directories: run for the sentinel of directory d/<c>
+    (resp. <c>), its recipe creates exactly that directory and touches exactly that sentinel
+    pre: len(c) == N and _comp_ok(c) and _in_scope(c, EXCL) and SHAPE != 2 and ROOTI == 0
+    pre: not (KF_QUOTE and chr(39) in c) and not (param('kf_wsrun', False) and _ws_run(c))
+    pre: c.startswith(param('cprefix', ''))
+    post: _
+    """
+    mk = Makefile('build.bfg')
+    mwriter.directory_rule(None, mk, _DEnv())
+    rule = mk._rules[-1]
+    d = 'd/' + c if SHAPE == 0 else c
+    sentinel = d + '/.dir'
+    argvs = []
+    for cmd in rule.recipe:
+        w = mk.writer(StringIO())
+        w.write_shell(cmd)
+        line = rmake.recipe(w.stream.getvalue(), (('@', sentinel),))
+        if line is None:
+            return R(False)
+        argvs.append(rsh.argv(line))
+    return R(argvs == [['mkdir', '-p', d], ['touch', sentinel]])
+
+
+def _ws_run(c):
+    """known finding C04-F18: patsubst works word by word and re-joins with single blanks"""
+    return '  ' in c
